@@ -49,7 +49,9 @@ async fn echo_claims(Context(p): Context<'_, Claims>) -> String {
 /* ------------------------------------------------------------- configurations ------------------------------ */
 
 pub fn secrets() -> Vec<String> {
-    vec!["".into(), "s".into(), "secret".into(), rj::secret_70(), rj::secret_140(), "pä".into()]
+    // (the last one: a key with surrounding white space, as read from a file or an environment variable - it is the key as given,
+    //  not its trimmed form)
+    vec!["".into(), "s".into(), "secret".into(), rj::secret_70(), rj::secret_140(), "pä".into(), " secret\n".into()]
 }
 
 enum Issuer { Value(JWT<Value>), Claims(JWT<Claims>) }
@@ -719,7 +721,7 @@ pub fn run(ctx: &mut Ctx) {
 fn finish(ctx: &mut Ctx, quick: bool, n_units: u64, n_mut: u64, n_issued: u64) {
     ctx.extra.insert("rule".into(), json!("case = (secret, algorithm, payload type, pinned clock, method, Authorization value [+ one other header]); non-trivial = an Authorization header for which the reference finds at most one ground of refusal (a valid token, or a token exactly one defect away from valid); collision = refused on exactly one ground (the single shortcut the edit family targets: prefix compare, skipped alg test, ignored claim, unchecked part count, lenient base64) or a time claim exactly equal to the clock"));
     ctx.extra.insert("bounds".into(), json!({
-        "secrets": ["", "s", "secret", "70 bytes", "140 bytes", "pä"], "algorithms": ["HS256", "HS384", "HS512"], "payload_types": ["serde_json::Value", "struct Claims{sub,admin,exp?}"],
+        "secrets": ["", "s", "secret", "70 bytes", "140 bytes", "pä", "` secret\\n`"], "algorithms": ["HS256", "HS384", "HS512"], "payload_types": ["serde_json::Value", "struct Claims{sub,admin,exp?}"],
         "clocks": clocks(quick), "payloads_per_configuration_main_clock": value_payloads(app::CLOCK, true).len(), "crafted_payload_texts": crafted_payload_texts(app::CLOCK).len(),
         "single_character_alphabet": String::from_utf8_lossy(MUT_ALPHABET), "mutations": "every substitution at every position + every deletion + insertion of `A` / `.` at every position",
         "mutated_tokens": if quick { "per (secret, alg), main clock: the five plain payloads and every accepted member of the integer-claim product (17); one typed token" } else { "per (secret, alg), every clock: every issued token the reference does not refuse; one typed token per configuration; all two-character substitutions of the minimal HS256 token" },
